@@ -738,7 +738,7 @@ fn cost_dict(rng: &mut Rng, tag: &str, uniform: Option<i16>) -> Result<CostDict,
 /// (b, e, l, r, c)
 type CNode = (usize, usize, usize, usize, i64);
 
-fn run_lattice(cd: &CostDict, len: usize, nodes: &[CNode]) -> (bool, Vec<(i32, u16, u16)>, String) {
+fn run_lattice(cd: &CostDict, len: usize, nodes: &[CNode]) -> (bool, Vec<(i32, u16, u32)>, String) {
     let mut lat = Lattice::default();
     let conn = cd.dic.grammar().conn_matrix();
     let r = catch(|| {
@@ -749,12 +749,12 @@ fn run_lattice(cd: &CostDict, len: usize, nodes: &[CNode]) -> (bool, Vec<(i32, u
         lat.connect_eos(conn)
     });
     let rows = lat.verif_rows();
-    let mut ents: Vec<(usize, usize, usize, i32, u16, u16)> = vec![];
+    let mut ents: Vec<(usize, usize, usize, i32, u16, u32)> = vec![];
     for row in rows.iter() {
         for (i, x) in row.iter().enumerate() { ents.push((x.0, x.1, i, x.6, x.7, x.8)); }
     }
     ents.sort_by_key(|x| (x.0, x.1, x.2));
-    let stored: Vec<(i32, u16, u16)> = ents.iter().map(|x| (x.3, x.4, x.5)).collect();
+    let stored: Vec<(i32, u16, u32)> = ents.iter().map(|x| (x.3, x.4, x.5)).collect();
     let eos = match &r {
         Err(_) => if stored.len() == nodes.len() { "PANIC".to_string() } else { "-".to_string() },
         Ok(Err(_)) => "x".to_string(),
@@ -763,13 +763,13 @@ fn run_lattice(cd: &CostDict, len: usize, nodes: &[CNode]) -> (bool, Vec<(i32, u
     (r.is_err(), stored, eos)
 }
 
-fn cks(stored: &[(i32, u16, u16)]) -> i64 {
+fn cks(stored: &[(i32, u16, u32)]) -> i64 {
     let mut s: i64 = 0;
     for x in stored { s = (s * 31 + x.0 as i64).rem_euclid(1_000_000_007); }
     s
 }
 
-fn cost_answer(nodes_len: usize, panicked: bool, stored: &[(i32, u16, u16)], eos: &str, summary: bool) -> String {
+fn cost_answer(nodes_len: usize, panicked: bool, stored: &[(i32, u16, u32)], eos: &str, summary: bool) -> String {
     if summary {
         let head = if panicked && stored.len() < nodes_len { "PANIC" } else { "ok" };
         format!("{} n={} cks={} eos={}", head, stored.len(), cks(stored), eos)
